@@ -679,6 +679,18 @@ func c15DrawReq(rt *rapid.T, m *c15Mount, r *c15Role) *c15Req {
 				}
 			}
 		}
+		if (r.KeyType == "rsa" || r.KeyType == "any") && vxChance(rt, "shortModulusKey", 12) {
+			// an RSA key one bit below the size the role (or the engine's floor) asks for
+			want := "rsa2047"
+			if r.KeyBits == 3072 {
+				want = "rsa3071"
+			}
+			for i, k := range keys {
+				if k.name == want {
+					q.Key = i
+				}
+			}
+		}
 		q.CsrCA = vxChance(rt, "csrCA", 15)
 		q.CsrKU = vxChance(rt, "csrKeyUsage", 10)
 		switch rapid.IntRange(0, 5).Draw(rt, "csrNames") {
